@@ -173,6 +173,16 @@ def lib_cases(chk, n):
             got_deps = [str(p) for p in lp.get_deps_paths()]
             got_out = str(lp.get_output_path())
             got_in = str(lp.in_output_dir(rel))
+            # what one call returns is the caller's own list: modifying it in place does not change what the next call returns
+            first = lp.get_deps_paths()
+            if isinstance(first, list):
+                first.reverse()
+                first.append("scratch-entry")
+                if first:
+                    first.pop(0)
+            again = [str(p) for p in lp.get_deps_paths()]
+            if again != got_deps:
+                got_deps = got_deps + ["<a second call, after the first result was modified in place, returned %r>" % (again,)]
             chk.coverage["evaluations"] += 1
             if got_deps != paths or got_out != outp or got_in != outp + "/" + rel:
                 chk.violation("impl-violation", "support library under COND_DEPS=%r COND_OUT=%r returned deps=%r out=%r in_output_dir(%r)=%r" % (":".join(paths), outp, got_deps, got_out, rel, got_in),
@@ -245,6 +255,49 @@ def real_children(chk, n):
             chk.violation("impl-violation", "a real child saw %r, expected argv %r cwd p/q COND_DEPS %r" % (seen, want_argv, want_deps),
                           {"input": {"files": files}, "impl_observation": seen}, match_key={"real": "child-view"}, size=1)
         else:
+            chk.coverage["traces_validated_against_impl"] += 1
+
+
+def included_args_and_options_are_per_cond_file(chk):
+    """"run, then args, then --key=value options in declared order" -- declared by the task's OWN COND file: two packages
+    include the same file and each extends the included argument list / option dict in place for its own experiment.  Run
+    through one target (both listing orders) each experiment must be started with exactly what its COND file, evaluated on
+    its own, declares, and args.json / options.json must say the same.  (Seed C07/k: the include cache handed every COND
+    file the same objects; the records are serialised when the plan is built, so each task got the other package's values.)"""
+    files = {"common.cond": 'BASE_ARGS = ["input.csv"]\nBASE_OPTIONS = {"threads": 4}\n',
+             "sysA/COND": 'include("//common.cond")\nBASE_ARGS.append("A")\nBASE_OPTIONS["system"] = "A"\nrun_experiment(name="bench", run="echo", args=BASE_ARGS, options=BASE_OPTIONS)\n',
+             "sysB/COND": 'include("../common.cond")\nBASE_ARGS.extend(["B", "B2"])\nBASE_OPTIONS["cache_mb"] = 64\nBASE_OPTIONS["system"] = "B"\nrun_experiment(name="bench", run="echo", args=BASE_ARGS, options=BASE_OPTIONS)\n',
+             "COND": 'group(name="ab", deps=["//sysA:bench", "//sysB:bench"])\ngroup(name="ba", deps=["//sysB:bench", "//sysA:bench"])\n'}
+    want = {"sysA": ("input.csv A --threads=4 --system=A\n", ["input.csv", "A"], {"threads": 4, "system": "A"}),
+            "sysB": ("input.csv B B2 --threads=4 --cache_mb=64 --system=B\n", ["input.csv", "B", "B2"], {"threads": 4, "cache_mb": 64, "system": "B"})}
+    for target in ("ab", "ba"):
+        root = implrun.make_project(files)
+        r = implrun.run_cond(["run", "//:" + target], root, timeout=60)
+        chk.coverage["evaluations"] += 1
+        chk.count("real", "included args/options")
+        problems = []
+        if r.code != 0:
+            problems.append("`cond run //:%s` exited %s: %s" % (target, r.code, implrun.strip_ansi(r.out + r.err).strip()[-200:]))
+        for pkg, (line, args, opts) in want.items():
+            d = os.path.join(root, "cond-out", pkg)
+            vs = [x for x in (os.listdir(d) if os.path.isdir(d) else []) if x.startswith("bench.task.")]
+            if len(vs) != 1:
+                problems.append("//%s:bench has %d output directories" % (pkg, len(vs)))
+                continue
+            rd = lambda n: open(os.path.join(d, vs[0], n), encoding="utf-8").read() if os.path.exists(os.path.join(d, vs[0], n)) else None  # noqa: E731
+            got = rd("stdout.log")
+            if got != line:
+                problems.append("//%s:bench was started with the words %r, its COND file declares %r" % (pkg, got, line))
+            try:
+                ja, jo = json.loads(rd("args.json") or "null"), json.loads(rd("options.json") or "null")
+            except ValueError:
+                ja, jo = "unreadable", "unreadable"
+            if (ja, jo) != (args, opts):
+                problems.append("//%s:bench: args.json / options.json hold %r / %r, declared %r / %r" % (pkg, ja, jo, args, opts))
+        for msg in problems[:2]:
+            chk.violation("impl-violation", "two packages extend included args / options in place, `cond run //:%s`: %s" % (target, msg),
+                          {"input": {"part": "included-args", "files": files, "target": target}, "oracle_verdict": msg}, match_key={"real": "included-args"}, size=3)
+        if not problems:
             chk.coverage["traces_validated_against_impl"] += 1
 
 
@@ -337,6 +390,7 @@ def run(tier, seed, replay=None):
         compare_env_model(chk, cc, cw, lc, lw)
     real_children(chk, 4 if tier == "quick" else 40)
     names_differing_in_case(chk)
+    included_args_and_options_are_per_cond_file(chk)
     if tier == "thorough":
         chk.run_coqchk()
     return chk.finish()
